@@ -60,6 +60,9 @@ func (c *Ctx) Prog(cfg string) *load.Program {
 	for _, pr := range p.Problems {
 		c.Set.Problem("[%s] %s", cfg, pr)
 	}
+	for _, n := range p.Notes {
+		c.Set.Note("[%s] %s", cfg, n)
+	}
 	c.progs[cfg] = p
 	c.loaded = append(c.loaded, cfg)
 	return p
